@@ -138,6 +138,86 @@ def optimised_interpreter_entry(ctx):
     return 10
 
 
+def oor_history_entry(ctx, impl, n):
+    """Entry point 1d: ONE Subroutine object that is in range, is serialised (and printed), is then
+    changed so that it is NOT representable (app id through instantiate() or the setter, an
+    instruction with an out-of-range leaf put in by replacing / appending / assigning the
+    instruction list), and is serialised again.  The second bytes() must refuse; bytes that decode
+    to anything but the object's current content are a silent alteration (a cached encoding, a
+    range check done only once per object).  Derived from ctx.rng; the history is the replay."""
+    rng = ctx.rng
+    tried = 0
+    for fname in cc.FLAVS:
+        rows = impl.t["flavours"][fname]["rows"]
+        cand = [r for r in rows if any(hi != 3 for (lo, hi) in ci.leaf_ranges(r))]
+        flav = impl.t["flavours"][fname]["flavour"]
+        for _ in range(n):
+            body = [ci.gen_in_range_instr(rng, rng.choice(rows)) for _ in range(rng.randint(1, 4))]
+            app = rng.choice([0, 1, 65535, rng.randint(0, 65535)])
+            kind = rng.choice(["instantiate", "app_setter", "replace", "append", "assign_list"])
+            try:
+                instrs = [impl.build_instr(impl.rows[fname][nm], lv) for nm, lv in body]
+                sub = impl.Subroutine(instructions=instrs, netqasm_version=(1, 0), app_id=app)
+                for _k in range(rng.randint(1, 2)):
+                    bytes(sub)
+                str(sub)
+            except Exception:
+                continue  # an in-range object refused: C01/C02's subject
+            final = [(nm, list(lv)) for nm, lv in body]
+            mut = None
+            try:
+                if kind in ("instantiate", "app_setter"):
+                    bad = rng.choice([65536, 65536 + app, 70000, 2 ** 31, -1, 2 ** 16 + 1])
+                    mut = [kind, bad]
+                    if kind == "instantiate":
+                        sub.instantiate(bad, {})
+                    else:
+                        sub.app_id = bad
+                    app2 = bad
+                else:
+                    row = rng.choice(cand)
+                    rs = ci.leaf_ranges(row)
+                    js = [j for j, (lo, hi) in enumerate(rs) if hi != 3]
+                    j = rng.choice(js)
+                    nm, lv = ci.distinct_field_instr(rng, row)
+                    lv[j] = rng.choice([rs[j][1] + 1, rs[j][0] - 1, rs[j][1] + 256, rs[j][1] * 2 + 2])
+                    new = impl.build_instr(impl.rows[fname][nm], lv)
+                    app2 = app
+                    if kind == "replace":
+                        i = rng.randrange(len(final)); sub.instructions[i] = new; final[i] = (nm, list(lv))
+                    elif kind == "append":
+                        sub.instructions.append(new); final.append((nm, list(lv)))
+                    else:
+                        i = rng.randrange(len(final) + 1)
+                        lst = list(sub.instructions); lst.insert(i, new); sub.instructions = lst; final.insert(i, (nm, list(lv)))
+                    mut = [kind, nm, list(lv)]
+            except Exception:
+                tried += 1
+                ctx.note_case(("oor-history", fname, kind, "refused at the change"))
+                continue  # refused when the change is made: fine
+            tried += 1
+            ctx.note_case(("oor-history", fname, app, str(body), str(mut)))
+            d = ctx.coverage.setdefault("stream_distribution_oor_histories", {})
+            d[kind] = d.get(kind, 0) + 1
+            try:
+                raw = bytes(sub)
+            except Exception:
+                continue  # rejected with an error: what the property asks for
+            try:
+                back = impl.deserialize(raw, flavour=flav)
+                dec = [back.app_id, [impl.view_instr(i) for i in back.instructions]]
+                dec = [dec[0], [[a, [int(x) for x in b]] for a, b in dec[1]]]
+            except Exception as e:  # noqa
+                dec = "undecodable: " + type(e).__name__
+            want = [app2, [[a, [int(x) for x in b]] for a, b in final]]
+            if dec != want:
+                ctx.violation("an object changed to an unrepresentable content after it had been serialised is encoded "
+                              "without error, to bytes that decode to something else (serialize -> change -> serialize)",
+                              dict(entry="object history", flavour=fname, version=[1, 0], first_app_id=app, first_body=body,
+                                   change=mut, current_content=want, decoded=dec))
+    return tried
+
+
 def run(ctx):
     ctx.rule = ("sequences with exactly one operand leaf (or the app id) just outside / far outside its range, mixed "
                 "with in-range sequences; accept/reject decision and bytes compared with the model's encode_checked; "
@@ -216,7 +296,8 @@ def run(ctx):
     except ImportError:
         ns = 0
     no = optimised_interpreter_entry(ctx)
-    ctx.coverage["entry_points"] = dict(direct=len(cases), text=nt, sdk=ns, python_O=no)
+    nh = oor_history_entry(ctx, impl, 60 if ctx.tier == "quick" else 1500)
+    ctx.coverage["entry_points"] = dict(direct=len(cases), text=nt, sdk=ns, python_O=no, object_histories=nh)
     ctx.finish()
 
 
